@@ -118,13 +118,22 @@ func Run(ns string, ignoreHost bool, batch []Dg, afterParse func(*gostatsd.Metri
 // pool), so that pooled objects of the first batch are reused before the caller looks at the first
 // result again. Result.Map / Events are those of the first batch only; the counters cover both.
 func Run2(ns string, ignoreHost bool, batch []Dg, afterParse func(*gostatsd.MetricMap, []*gostatsd.Event), second []Dg) (res Result) {
+	return Run3(ns, ignoreHost, 0, batch, afterParse, second)
+}
+
+// EstimatedTags maps a small index to the parser's estimated-tags setting (a sizing hint for the metric
+// pool's tag buffers: no value of it may change what is parsed).
+func EstimatedTags(i int) int { return []int{0, 1, 2, 4}[((i%4)+4)%4] }
+
+// Run3 is Run2 with the parser's estimated-tags setting given.
+func Run3(ns string, ignoreHost bool, estimatedTags int, batch []Dg, afterParse func(*gostatsd.MetricMap, []*gostatsd.Event), second []Dg) (res Result) {
 	ctx, cancel := context.WithCancel(context.Background())
 	defer cancel()
 	cs := &capStatser{Statser: stats.NewNullStatser(), tick: make(chan time.Duration), vals: map[string]uint64{}, reported: make(chan struct{}, 4)}
 	ctx = stats.NewContext(ctx, cs)
 	capt := &Capture{}
 	in := make(chan []*statsd.Datagram)
-	dp := statsd.NewDatagramParser(in, ns, ignoreHost, 0, capt, 0, false, quietLogger())
+	dp := statsd.NewDatagramParser(in, ns, ignoreHost, estimatedTags, capt, 0, false, quietLogger())
 
 	panicCh := make(chan string, 1)
 	go func() {
